@@ -1,5 +1,6 @@
 // C10 — segment models are inherited and sections interpolate only between neighbours.
 #include "../gen.h"
+#include "../ref_geometry.h"
 
 using namespace vf;
 namespace WB = WorldBuilder;
@@ -283,11 +284,126 @@ static Result check_sections(const J &c)
   return r;
 }
 
+// ---------------------------------------------------------------- (d') geometric quantities: thickness / top truncation across two sections
+// straight cartesian 2-coordinate trench, one segment of the same length and dips in both sections, but different
+// thickness and top-truncation pairs: membership must use each section's own values beside its coordinate and a
+// convex combination of the two in between.
+static J gen_geometry(Chooser &ch)
+{
+  J c = J::obj();
+  const bool fault = ch.chance(35);
+  c["type"] = fault ? "fault" : "subducting plate";
+  c["H"] = 2000e3;
+  const double x0 = ch.lattice(-1500e3, 1500e3, 1e3), y0 = ch.lattice(-1500e3, 1500e3, 1e3);
+  const double az = ch.real(-PI, PI), len = ch.real(400e3, 1500e3);
+  c["p0"] = jp(x0, y0); c["p1"] = jp(x0 + len * std::cos(az), y0 + len * std::sin(az));
+  c["side"] = ch.flip() ? 1 : -1;
+  c["L"] = ch.lattice(150e3, 500e3, 10e3);
+  const double a0 = ch.lattice(15, 75, 5);
+  c["a0"] = a0; c["a1"] = ch.flip() ? a0 : ch.lattice(15, 75, 5);
+  J secs = J::arr();
+  for (int i = 0; i < 2; ++i)
+    {
+      J s = J::obj();
+      s["t0"] = ch.lattice(30e3, 200e3, 10e3); s["t1"] = ch.chance(60) ? ch.lattice(30e3, 200e3, 10e3) : s["t0"].num();
+      s["tt0"] = fault ? 0.0 : ch.lattice(-40e3, 20e3, 5e3); s["tt1"] = fault ? 0.0 : (ch.chance(60) ? ch.lattice(-40e3, 20e3, 5e3) : s["tt0"].num());
+      secs.push(s);
+    }
+  c["sections"] = secs;
+  c["layout"] = static_cast<int>(ch.range(0, 2)); // 0: section 0 = default segments, override coordinate 1; 1: the reverse; 2: both coordinates have a section entry
+  J pts = J::arr();
+  const int np = static_cast<int>(ch.range(10, 40));
+  for (int i = 0; i < np; ++i)
+    {
+      J p = J::obj();
+      p["s"] = ch.pick<double>({1e-6, 1 - 1e-6, 1e-6, 1 - 1e-6, 0.5, 0.3, 0.7}); // 1e-6: the interpolation weight is the curve parameter (cube root for 2-point trenches), 1% there
+      if (ch.chance(20)) p["s"] = ch.real(0.05, 0.95);
+      p["l"] = ch.real(0.03, 0.97);
+      p["n"] = ch.real(-60e3, 230e3);
+      pts.push(p);
+    }
+  c["points"] = pts;
+  return c;
+}
+
+static Result check_geometry(const J &c)
+{
+  Result r;
+  const bool fault = c.at("type").str() == "fault";
+  const double H = c.at("H").num();
+  const double x0 = c.at("p0")[0].num(), y0 = c.at("p0")[1].num(), x1 = c.at("p1")[0].num(), y1 = c.at("p1")[1].num();
+  const double len = std::sqrt((x1 - x0) * (x1 - x0) + (y1 - y0) * (y1 - y0));
+  const double tx = (x1 - x0) / len, ty = (y1 - y0) / len, side = c.at("side").num();
+  const double nx = -ty * side, ny = tx * side;
+  const double L = c.at("L").num();
+  std::vector<ref::Seg> segs = {{L, c.at("a0").num() * DEG, c.at("a1").num() * DEG}};
+  auto seg_json = [&](const J &s) {
+    J js = J::obj();
+    js["length"] = L; js["thickness"] = J::arr({s.at("t0"), s.at("t1")}); js["angle"] = J::arr({c.at("a0"), c.at("a1")});
+    if (!fault) js["top truncation"] = J::arr({s.at("tt0"), s.at("tt1")});
+    return J::arr({js});
+  };
+  J root = J::obj();
+  root["version"] = "1.1";
+  J feat = J::obj();
+  feat["model"] = c.at("type").str(); feat["name"] = "line";
+  feat["coordinates"] = J::arr({jp(x0, y0), jp(x1, y1)});
+  feat["dip point"] = jp(0.5 * (x0 + x1) + nx * 5e7, 0.5 * (y0 + y1) + ny * 5e7);
+  const int layout = static_cast<int>(c.at("layout").num());
+  J sections = J::arr();
+  auto sec = [&](int coord) { J s = J::obj(); s["coordinate"] = coord; s["segments"] = seg_json(c.at("sections")[static_cast<size_t>(coord)]); return s; };
+  if (layout == 0) { feat["segments"] = seg_json(c.at("sections")[0]); sections.push(sec(1)); }
+  else if (layout == 1) { feat["segments"] = seg_json(c.at("sections")[1]); sections.push(sec(0)); }
+  else { feat["segments"] = seg_json(c.at("sections")[0]); sections.push(sec(0)); sections.push(sec(1)); }
+  feat["sections"] = sections;
+  root["features"] = J::arr({feat});
+  auto W = make_world(root.dump());
+  r.classes.push_back(fault ? "fault" : "slab");
+  for (const auto &p : c.at("points").a)
+    {
+      double qx, qy;
+      ref::planar_slab_point(segs, p.at("l").num() * L, p.at("n").num(), qx, qy);
+      const double depth = -qy;
+      if (depth < 0 || depth > H) continue;
+      const double s = p.at("s").num() * len;
+      const double X = x0 + s * tx + qx * nx, Y = y0 + s * ty + qx * ny;
+      const ref::PlaneDist d = ref::planar_slab(segs, qx, qy);
+      if (d.segment < 0 || d.margin < 1.0) continue;
+      const double f = p.at("s").num(), g = d.frac;
+      auto own = [&](size_t i, const char *k0, const char *k1) { const J &sc = c.at("sections")[i]; return sc.at(k0).num() + g * (sc.at(k1).num() - sc.at(k0).num()); };
+      const double th0 = own(0, "t0", "t1"), th1 = own(1, "t0", "t1"), tr0 = own(0, "tt0", "tt1"), tr1 = own(1, "tt0", "tt1");
+      const double tag = W->properties({{X, Y, H - depth}}, depth, {{{4, 0, 0}}})[0];
+      const bool inside = tag != -1;
+      r.inner++; r.nontrivial = true; r.inner_nt++;
+      // bounds that every convex combination of the two sections' own values satisfies
+      double th_lo = std::min(th0, th1), th_hi = std::max(th0, th1), tr_lo = std::min(tr0, tr1), tr_hi = std::max(tr0, tr1);
+      const bool near0 = f <= 1.1e-6, near1 = f >= 1 - 1.1e-6;
+      if (near0 || near1)
+        {
+          // beside a coordinate the section's own value applies (the weight of the other section is ~1% there)
+          const double tho = near0 ? th0 : th1, tro = near0 ? tr0 : tr1;
+          const double bt = 0.03 * std::fabs(th1 - th0) + 1.0, br = 0.03 * std::fabs(tr1 - tr0) + 1.0;
+          th_lo = tho - bt; th_hi = tho + bt; tr_lo = tro - br; tr_hi = tro + br;
+          r.classes.push_back("beside a coordinate");
+        }
+      const double up = fault ? 0.5 : 1.0;
+      const double lo_sure_in = fault ? -0.5 * th_lo : tr_hi, hi_sure_in = up * th_lo;   // inside whatever the combination
+      const double lo_sure_out = fault ? -0.5 * th_hi : tr_lo, hi_sure_out = up * th_hi; // outside whatever the combination
+      const double eps = 1.0;
+      if (d.from > lo_sure_in + eps && d.from < hi_sure_in - eps && !inside && (fault || th_lo >= tr_hi))
+        return Result::fail(near0 || near1 ? "section-own-geometry" : "section-geometry-convexity", c.at("type").str() + ": a point at distance " + fmt(d.from) + " from the surface (segment fraction " + fmt(g) + ", trench fraction " + fmt(f) + ") is reported outside although every combination of the adjacent sections' thickness [" + fmt(th_lo) + "," + fmt(th_hi) + "] and top truncation [" + fmt(tr_lo) + "," + fmt(tr_hi) + "] contains it; sections " + c.at("sections").dump());
+      if ((d.from < lo_sure_out - eps || d.from > hi_sure_out + eps) && inside)
+        return Result::fail(near0 || near1 ? "section-own-geometry" : "section-geometry-convexity", c.at("type").str() + ": a point at distance " + fmt(d.from) + " from the surface (segment fraction " + fmt(g) + ", trench fraction " + fmt(f) + ") is reported inside although no combination of the adjacent sections' thickness [" + fmt(th_lo) + "," + fmt(th_hi) + "] and top truncation [" + fmt(tr_lo) + "," + fmt(tr_hi) + "] contains it; sections " + c.at("sections").dump());
+    }
+  return r;
+}
+
 int main(int argc, char **argv)
 {
   return run_main("C10", argc, argv,
   {
     {"relayout", "slab or fault with 2..5 coordinates (bends <= 25 deg), 1..3 segments, uniform temperature/composition/grains/velocity models placed at feature, section and segment level in random combinations, sections for a random subset of coordinates with their own geometry; (a) writing the inherited models into every segment and (b) repeating the default segments in a section entry for every coordinate must not change any answer. Non-trivial: inside the feature, >=1 section override and >=1 inherited kind", 80, gen_relayout, check_relayout, 100, true, true},
     {"sections", "4..5 coordinates, every coordinate with a section carrying its own uniform temperature (same geometry); points beside the trench: value inside the hull of the adjacent sections, a section's own value beside its coordinate, and changing one section's value leaves points beyond its neighbours unchanged", 80, gen_sections, check_sections, 100, true, true},
+    {"section_geometry", "straight cartesian trench with two coordinates whose sections differ in thickness and top-truncation pairs (written as default+override, override+default, or two overrides); 10..40 points generated in slab coordinates beside each coordinate (1e-6 of the trench length in) and in between: membership must follow the section's own thickness/top truncation beside its coordinate and lie within the hull of the two sections in between", 120, gen_geometry, check_geometry, 100, true, true},
   });
 }
